@@ -4,7 +4,7 @@
 import SelfiesVerif.Proofs.RingInv
 namespace SV
 
-theorem getDirBond_ok {m : Mol} {src dst : Nat} {b : DirBond} (h : m.getDirBond src dst = .ok b) :
+theorem getDirBond_okM {m : Mol} {src dst : Nat} {b : DirBond} (h : m.getDirBond src dst = .ok b) :
     ∃ row, m.adj[src]? = some row ∧ b ∈ row ∧ b.dst = dst := by
   unfold Mol.getDirBond at h
   split at h
@@ -55,7 +55,7 @@ theorem updateBondOrder_eq {T m} (hI : RInv T m) {l r n : Nat} {m' : Mol} (hlr :
     bind_at h with ⟨ch, h4, h⟩
     dsimp only at h
     cases h
-    obtain ⟨rowl, hrowl, habm, habd⟩ := getDirBond_ok h1
+    obtain ⟨rowl, hrowl, habm, habd⟩ := getDirBond_okM h1
     have hn : 1 ≤ n ∧ n ≤ 3 := by
       unfold pyAssert at h0
       split at h0
